@@ -45,8 +45,10 @@ def _chunk(cases):
             target = str(env.path(c["path"]))
             if c.get("noext"):
                 target = target[:-3]
+            # with the extra variable the caller also passes variables named like the groups the patterns capture: what is
+            # captured from the path wins (the rendering MC_Template expects uses the captures)
             args = ["template", "init"] + (["-f"] if c["overwrite"] else []) + [target] + \
-                   ([f"extra={c['extra']}"] if c["extra"] else [])
+                   ([f"extra={c['extra']}", "name=scratch", "y=1999"] if c["extra"] else [])
             seen = []
             for call, want in ((1, c["once"]), (2, c["twice"])):
                 with Interposer(env.zdir) as ip:
@@ -62,7 +64,7 @@ def _chunk(cases):
                         r = _R()
                         try:
                             init_from_template(env.zdir, {re.compile(REGEX[p]): Path(f"tmpl/{p}.zot") for p in c["map"]}, Path(target),
-                                               template=Path("tmpl/explicit.zot"), var_map=({"extra": c["extra"]} if c["extra"] else {}),
+                                               template=Path("tmpl/explicit.zot"), var_map=({"extra": c["extra"], "name": "scratch", "y": "1999"} if c["extra"] else {}),
                                                should_overwrite_existing=c["overwrite"])
                         except Exception as e:  # noqa: BLE001
                             r.exc = e
